@@ -95,6 +95,7 @@ type recOrc struct {
 	w        *world
 	gen      int
 	shutdown atomic.Bool
+	active   atomic.Int32 // sink calls in progress on this generation
 }
 
 type recSink struct {
@@ -137,6 +138,8 @@ func (o *recOrc) Shutdown() {
 	bad := ""
 	if o.shutdown.Swap(true) {
 		bad = "Shutdown called twice"
+	} else if o.active.Load() > 0 {
+		bad = "Shutdown of a generation while a call on one of its sinks is in progress"
 	}
 	o.w.log(ev{Actor: o.w.actor(), Op: "orc.Shutdown", Gen: o.gen, Bad: bad})
 }
@@ -147,8 +150,29 @@ func (s *recSink) call(op string, recs []int) {
 		bad = append(bad, "sink used by two goroutines at once")
 	}
 	defer s.inUse.Add(-1)
-	if s.o.shutdown.Load() {
+	s.o.active.Add(1)
+	defer s.o.active.Add(-1)
+	already := s.o.shutdown.Load()
+	if already {
 		bad = append(bad, op+" on a sink of a generation whose Shutdown has begun")
+	}
+	// gate scripts can hold a call inside the downstream sink (a real sink's Accept / Close block on a busy pipeline)
+	if g := curGates.Load(); g != nil {
+		g.stopHere("rec." + op)
+	}
+	// a real sink's Accept / Close take time (they flush into pipeline channels): under a perturbation plan the recording sink
+	// lingers too, so that a call which the wrapper fails to exclude from a reload really overlaps it
+	if p := curDelay.Load(); p != nil && p.max > 0 {
+		p.mu.Lock()
+		p.rnd = p.rnd*6364136223846793005 + 1442695040888963407
+		r := p.rnd >> 33
+		p.mu.Unlock()
+		if r%4 == 0 {
+			time.Sleep(time.Duration(1+int(r>>8)%p.max) * time.Microsecond)
+		}
+	}
+	if !already && s.o.shutdown.Load() {
+		bad = append(bad, op+" on a sink overlapped the Shutdown of its generation")
 	}
 	if s.closed.Load() {
 		bad = append(bad, op+" after the sink's Close")
@@ -500,20 +524,24 @@ type delayPlan struct {
 	hits atomic.Int64
 }
 
+func (g *gates) stopHere(point string) {
+	g.mu.Lock()
+	actor, ok := g.armed[point]
+	var w, h chan struct{}
+	if ok && (actor == "" || actor == g.w.actor()) {
+		w, h = g.wait[point], g.hit[point]
+		delete(g.armed, point)
+	}
+	g.mu.Unlock()
+	if w != nil {
+		close(h)
+		<-w
+	}
+}
+
 func hook(point string) {
 	if g := curGates.Load(); g != nil {
-		g.mu.Lock()
-		actor, ok := g.armed[point]
-		var w, h chan struct{}
-		if ok && (actor == "" || actor == g.w.actor()) {
-			w, h = g.wait[point], g.hit[point]
-			delete(g.armed, point)
-		}
-		g.mu.Unlock()
-		if w != nil {
-			close(h)
-			<-w
-		}
+		g.stopHere(point)
 	}
 	if p := curDelay.Load(); p != nil {
 		p.hits.Add(1)
@@ -610,7 +638,10 @@ func runGate(gc gateCase) ([]finding, bool) {
 			reached = g.reached("reloadable.reload.afterShutdown")
 		}
 		a := async(step{Actor: "A", Op: "new", Num: 5})
-		time.Sleep(20 * time.Millisecond) // A is now blocked on the lock or (if the code reads the downstream first) past that read
+		select { // A blocks on the lock (correct) or gets through (the code read the downstream first)
+		case <-a:
+		case <-time.After(150 * time.Millisecond):
+		}
 		if !gc.Fail {
 			g.release("reloadable.reload.afterShutdown")
 			ok = wait(r)
@@ -631,7 +662,10 @@ func runGate(gc gateCase) ([]finding, bool) {
 			reached = g.reached("reloadable.reload.beforeRecreate")
 		}
 		a := async(step{Actor: "A", Op: "close"})
-		time.Sleep(20 * time.Millisecond)
+		select {
+		case <-a:
+		case <-time.After(150 * time.Millisecond):
+		}
 		if !gc.Fail {
 			g.release("reloadable.reload.beforeRecreate")
 			ok = wait(r)
@@ -650,7 +684,10 @@ func runGate(gc gateCase) ([]finding, bool) {
 			reached = g.reached("reloadable.reload.afterShutdown")
 		}
 		a := async(step{Actor: "A", Op: "accept", Rec: 1})
-		time.Sleep(20 * time.Millisecond)
+		select {
+		case <-a:
+		case <-time.After(150 * time.Millisecond):
+		}
 		if !gc.Fail {
 			g.release("reloadable.reload.afterShutdown")
 			ok = wait(r)
@@ -658,6 +695,30 @@ func runGate(gc gateCase) ([]finding, bool) {
 		ok = wait(a) && ok
 		d.do(step{Actor: "A", Op: "tick"})
 		d.do(step{Actor: "A", Op: "close"})
+	case "G8", "G9": // a Close (G8) / Accept (G9) is held inside the downstream sink while a reload arrives: the reload must wait for it
+		d.do(step{Actor: "A", Op: "new", Num: 5})
+		d.do(step{Actor: "B", Op: "new", Num: 6})
+		op, point := "close", "rec.sink.Close"
+		if base == "G9" {
+			op, point = "accept", "rec.sink.Accept"
+		}
+		g.arm(point, "A")
+		a := async(step{Actor: "A", Op: op, Rec: 1})
+		reached = g.reached(point)
+		r := async(reload)
+		// a correct wrapper keeps the reload waiting on the write lock for as long as the call is held; give a wrong one
+		// ample time to get through (the machine may be loaded), without waiting longer than needed once it did
+		select {
+		case <-r:
+		case <-time.After(400 * time.Millisecond):
+		}
+		g.release(point)
+		ok = wait(a) && wait(r)
+		d.do(step{Actor: "B", Op: "accept", Rec: 2})
+		if base == "G9" {
+			d.do(step{Actor: "A", Op: "close"})
+		}
+		d.do(step{Actor: "B", Op: "close"})
 	}
 	fs := d.judgeLog()
 	if !ok {
@@ -667,7 +728,7 @@ func runGate(gc gateCase) ([]finding, bool) {
 	d.w.mu.Lock()
 	lastGen := d.w.nextGen - 1
 	for _, e := range d.w.events {
-		if e.Op == "sink.Accept" && e.Gen != lastGen && !gc.Fail && base != "G3" && base != "G7" {
+		if e.Op == "sink.Accept" && e.Gen != lastGen && !gc.Fail && base != "G3" && base != "G7" && base != "G9" {
 			fs = append(fs, finding{"record-to-wrong-generation", fmt.Sprintf("gate script %s: record %v accepted after the reload completed was delivered to generation %d (current: %d)", gc.Name, e.Recs, e.Gen, lastGen)})
 		}
 	}
@@ -677,7 +738,7 @@ func runGate(gc gateCase) ([]finding, bool) {
 
 func buildGateCases() []gateCase {
 	var out []gateCase
-	for _, n := range []string{"G1", "G2", "G3", "G7"} {
+	for _, n := range []string{"G1", "G2", "G3", "G7", "G8", "G9"} {
 		out = append(out, gateCase{Name: n}, gateCase{Name: n + "/failing-reload", Fail: true})
 	}
 	return out
